@@ -1,5 +1,6 @@
 """C11 - the retry middleware re-sends a failing task a bounded number of times."""
 import json
+import os
 
 import common as C
 import retry_typed_gen as TG
@@ -613,11 +614,35 @@ def run(ctx):
     broken = explore(ctx, rep, env_grid() + [gen_env_case(re_) for _ in range(ctx.n(400, 12000))], "env") or broken
     rt = ctx.sub_rng("typed")
     broken = explore(ctx, rep, typed_grid() + [gen_typed_case(rt) for _ in range(ctx.n(300, 9000))], "typed") or broken
-    if (broken or any(not o["ok"] for o in rep.obligations)) and not rep.failures:
+    known_alias(ctx, rep)
+    if (broken or any(not o["ok"] for o in rep.obligations)) and not [f for f in rep.failures if not is_alias(f)]:
         r2 = ctx.sub_rng("search")
         explore(ctx, rep, [gen_env_case(r2) if i % 4 == 3 else gen_typed_case(r2) if i % 4 == 1 else gen_case(r2)
                            for i in range(ctx.n(6000, 60000))], "search")
-    return rep.finish({})
+    return rep.finish({"alias_field_lost": is_alias})
+
+
+def is_alias(f):
+    return f.get("sig", {}).get("kind") == "alias_field_lost"
+
+
+def known_alias(ctx, rep):
+    """known finding D12 (known_findings.json, signature alias_field_lost): its corpus replay runs on every check through
+    the driver and the direct oracle only (the model treats arguments as opaque, it has no counterpart of the loss)"""
+    path = os.path.join(C.VERIF, "corpus", "C11", "known", "d12_alias_field_lost.json")
+    if not os.path.exists(path):
+        return
+    c = json.load(open(path))
+    o = C.run_driver(ctx, DRIVER, [c], nproc=1)[0]
+    rep.case(c, True)
+    rep.count("known-finding-replay:d12_alias_field_lost")
+    if "_crash" in o:
+        rep.fail("driver crashed", c, observed=o["_crash"], sig=dict(kind="crash"))
+        return
+    got = []
+    oracle(c, o, lambda what, observed, expected: got.append((what, observed, expected)))
+    for what, observed, expected in got[:1]:
+        rep.fail(what, c, observed=observed, expected=expected, sig=dict(kind="alias_field_lost"))
 
 
 def replay(ctx, path):
